@@ -40,19 +40,24 @@ Theorem C17_encode_error_writes_nothing : forall progs plan readers c t l w ops 
 Proof. exact encode_error_writes_nothing. Qed.
 Print Assumptions C17_encode_error_writes_nothing.
 
-(* the sticky error: set only by the reader of the session that is still current, or by a
-   failed Reconnect; cleared only by a successful Reconnect *)
+(* the sticky error: set only by the reader of the session that is still current, or by the setErr
+   step of a failed Reconnect; cleared only by the setErr step of a successful Reconnect (the step the
+   code performs, still under the exclusive lock, a few instructions after the dial: XSetErr) *)
 Theorem C17_sticky : forall n c t l c' e,
   nth_error (thr c) t = Some l -> xs_step false n c t = Some (c', e) ->
   xg_err (glob c') <> xg_err (glob c) ->
   (xg_err (glob c') = true /\
      ((exists s, x_pc l = XBgReport s /\ xg_sess (glob c) = Some s /\ e = None)
-      \/ (x_pc l = XDial /\ (exists ops, x_ops l = XReconnect false :: ops) /\ e = Some (XEvNew false)
-          /\ xg_sess (glob c') = None)))
-  \/ (xg_err (glob c') = false /\ x_pc l = XDial /\ (exists ops, x_ops l = XReconnect true :: ops)
-      /\ e = Some (XEvNew true)).
+      \/ (x_pc l = XSetErr false /\ e = None /\ xg_sess (glob c') = xg_sess (glob c))))
+  \/ (xg_err (glob c') = false /\ x_pc l = XSetErr true /\ e = None /\ xg_sess (glob c') = xg_sess (glob c)).
 Proof. exact sticky. Qed.
 Print Assumptions C17_sticky.
+
+Theorem C17_seterr_is_reconnect : forall progs plan readers c t l ok,
+  reach false progs plan readers c -> nth_error (thr c) t = Some l -> x_pc l = XSetErr ok ->
+  (exists ops, x_ops l = XReconnect ok :: ops) /\ rw_writer (xg_SL (glob c)) = Some t.
+Proof. exact seterr_is_reconnect. Qed.
+Print Assumptions C17_seterr_is_reconnect.
 
 (* once it is set, every later send returns that error without touching the connection *)
 Theorem C17_error_is_sticky : forall n c t l c' e,
@@ -70,16 +75,36 @@ Theorem C17_stale_reader_harmless : forall n c t l s c' e,
 Proof. exact stale_reader_harmless. Qed.
 Print Assumptions C17_stale_reader_harmless.
 
-Theorem C17_reconnect_clears : forall n c t l ops c' e,
-  nth_error (thr c) t = Some l -> x_pc l = XDial -> x_ops l = XReconnect true :: ops ->
+(* Reconnect: the dial installs a fresh open session (or none) and leaves the error flag alone; the setErr
+   step that follows clears it after a successful dial, sets it after a failed one, unlocks and returns *)
+Theorem C17_reconnect_dials : forall n c t l ok ops c' e,
+  nth_error (thr c) t = Some l -> x_pc l = XDial -> x_ops l = XReconnect ok :: ops ->
   xs_step false n c t = Some (c', e) ->
-  e = Some (XEvNew true) /\ xg_err (glob c') = false /\
-  xg_sess (glob c') = Some (length (xg_sessions (glob c))) /\
-  length (xg_sessions (glob c')) = S (length (xg_sessions (glob c))) /\
-  closed (glob c') (length (xg_sessions (glob c))) = false /\
+  e = Some (XEvNew ok) /\ xg_err (glob c') = xg_err (glob c) /\ xg_SL (glob c') = xg_SL (glob c) /\
+  nth_error (thr c') t = Some (xat l (XSetErr ok)) /\
+  (if ok then xg_sess (glob c') = Some (length (xg_sessions (glob c))) /\
+              length (xg_sessions (glob c')) = S (length (xg_sessions (glob c))) /\
+              closed (glob c') (length (xg_sessions (glob c))) = false
+   else xg_sess (glob c') = None /\ xg_sessions (glob c') = xg_sessions (glob c)).
+Proof. exact reconnect_dials. Qed.
+Print Assumptions C17_reconnect_dials.
+
+Theorem C17_reconnect_clears : forall n c t l c' e,
+  nth_error (thr c) t = Some l -> x_pc l = XSetErr true ->
+  xs_step false n c t = Some (c', e) ->
+  e = None /\ xg_err (glob c') = false /\ xg_sess (glob c') = xg_sess (glob c) /\
+  xg_sessions (glob c') = xg_sessions (glob c) /\ xg_SL (glob c') = wunlock (xg_SL (glob c)) /\
   nth_error (thr c') t = Some (xfin l 0%N).
 Proof. exact reconnect_clears. Qed.
 Print Assumptions C17_reconnect_clears.
+
+Theorem C17_failed_reconnect_sets : forall n c t l c' e,
+  nth_error (thr c) t = Some l -> x_pc l = XSetErr false ->
+  xs_step false n c t = Some (c', e) ->
+  e = None /\ xg_err (glob c') = true /\ xg_sess (glob c') = xg_sess (glob c) /\
+  nth_error (thr c') t = Some (xfin l 6%N).
+Proof. exact reconnect_failure_sets. Qed.
+Print Assumptions C17_failed_reconnect_sets.
 
 (* sends without a live session fail with an error and no event *)
 Theorem C17_no_session : forall n c t l c' e,
